@@ -72,6 +72,7 @@ class FP:
         self.name = name
         self.slot = int(name.split("-")[1])
         self.pid: Any = None
+        self.uid: Any = None
         self.state = "new"            # new -> alive -> (terminating ->) zombie -> reaped
         self.shutdown_s = 0.0         # seconds the process needs to exit after terminate()
         self.remaining = 0.0
@@ -83,16 +84,17 @@ class FP:
 
     def start(self) -> None:
         self.w.point("start")
-        self.pid = self.w.pid
+        self.uid = self.w.pid          # unique per process incarnation: what the trace talks about
         self.w.pid += 1
+        self.pid = self.w.alloc_pid(self.uid)     # what the OS hands out: may be a number an earlier, reaped process had
         self.state = "alive"
-        self.w.trace.append(["start", self.slot, self.pid])
+        self.w.trace.append(["start", self.slot, self.uid])
         k = self.w.nstart
         self.w.nstart += 1
         self.shutdown_s = float(self.w.slow.get(k, 0.0))
         if k in self.w.startup_deaths:
             self.state = "zombie"
-            self.w.trace.append(["die", self.slot, self.pid])
+            self.w.trace.append(["die", self.slot, self.uid])
 
     def is_alive(self) -> bool:
         self.w.point("is_alive")
@@ -109,7 +111,7 @@ class FP:
                 self.remaining = self.shutdown_s
             else:
                 self.state = "zombie"
-        self.w.trace.append(["terminate", self.slot, self.pid, before, self.state])
+        self.w.trace.append(["terminate", self.slot, self.uid, before, self.state])
 
     def join(self, timeout: Any = None) -> None:
         self.w.point("join")
@@ -121,7 +123,7 @@ class FP:
                 self.remaining -= float(timeout)
         elif self.state == "zombie":
             self.state = "reaped"
-        self.w.trace.append(["join", self.slot, self.pid, before, self.state, timeout])
+        self.w.trace.append(["join", self.slot, self.uid, before, self.state, timeout])
 
 
 class World:
@@ -138,6 +140,20 @@ class World:
         self.calls = 0
         self.mid: Dict[int, List[str]] = {}
         self.queue: Any = None
+        self.pid_pool = 0
+        self.last_pid = 4999
+
+    def alloc_pid(self, uid: int) -> int:
+        if not self.pid_pool:
+            return uid
+        n = self.pid_pool
+        in_use = {p.pid for p in self.procs if p.state in ("alive", "terminating", "zombie")}
+        for k in range(1, n + 1):          # cyclic allocation like the kernel's, wrapping at pid_max
+            cand = 5000 + (self.last_pid - 5000 + k) % n
+            if cand not in in_use:
+                self.last_pid = cand
+                return cand
+        return uid
 
     def deliver(self, s: str) -> None:
         self.trace.append(["sig", s])
@@ -168,13 +184,13 @@ class World:
                 p.remaining -= 1.0
                 if p.remaining <= 0:
                     p.state = "zombie"
-                    self.trace.append(["exit", p.slot, p.pid])
+                    self.trace.append(["exit", p.slot, p.uid])
         for i in ev.get("die", ()):
             for p in self.procs:
                 if p.slot == i and p.state == "alive":
                     p.state = "zombie"
                     p.code = 0 if i in ev.get("exit0", ()) else 1
-                    self.trace.append(["die", i, p.pid])
+                    self.trace.append(["die", i, p.uid])
         for sg in ev.get("sig", ()):
             self.deliver(sg)
         self.calls = 0
@@ -184,19 +200,22 @@ class World:
 
     def kill(self, pid: Any, sig: Any) -> None:
         self.point("kill")
-        p = next((p for p in self.procs if p.pid == pid), None)
-        self.trace.append(["kill", pid, int(sig), p.state if p else None])
+        holders = [p for p in self.procs if p.pid == pid and p.state != "new"]
+        live = [p for p in holders if p.state != "reaped"]
+        p = (live or holders or [None])[-1]      # the process that has this number NOW (pids of reaped processes get reused)
+        self.trace.append(["kill", p.uid if p else pid, int(sig), p.state if p else None])
         if p is None or p.state == "reaped":
             raise ProcessLookupError(pid)
         if p.state in ("alive", "terminating"):
             pass
 
 
-def run_manager(W: int, max_fails: int, history: List[Dict[str, Any]], startup_deaths=(), slow=(), hosted: bool = False) -> Dict[str, Any]:
+def run_manager(W: int, max_fails: int, history: List[Dict[str, Any]], startup_deaths=(), slow=(), hosted: bool = False, pidpool: int = 0) -> Dict[str, Any]:
     """hosted=True: nothing about the identity of the current process is faked (used when the manager is run inside
     a real multiprocessing child, see run_manager_hosted)."""
     w = World(history, list(startup_deaths))
     w.slow = {int(k): float(v) for k, v in slow}
+    w.pid_pool = int(pidpool or 0)
 
     def mk_process(target: Any = None, kwargs: Any = None, name: Any = None, daemon: Any = None, **kw: Any) -> FP:
         p = FP(w, name)
@@ -233,7 +252,7 @@ def run_manager(W: int, max_fails: int, history: List[Dict[str, Any]], startup_d
             ret, status, exc = None, "raised", f"{type(e).__name__}: {e}"
             w.trace.append(["raise", type(e).__name__])
         return {"status": status, "ret": ret, "exc": exc, "trace": w.trace, "nworkers": len(m.workers),
-                "ticks_used": w.tick, "procs": [(p.slot, p.pid, p.state) for p in w.procs]}
+                "ticks_used": w.tick, "procs": [(p.slot, p.uid, p.state) for p in w.procs]}
     finally:
         for n, v in _ORIG.items():
             setattr(pm, n, v)
@@ -241,7 +260,7 @@ def run_manager(W: int, max_fails: int, history: List[Dict[str, Any]], startup_d
 
 def _hosted_child(conn: Any, a: Any) -> None:
     try:
-        res = run_manager(*a, hosted=True)
+        res = run_manager(a[0], a[1], a[2], a[3], a[4], hosted=True, pidpool=a[6] if len(a) > 6 else 0)
         res.pop("procs", None)
         conn.send(res)
     except BaseException as e:  # noqa: BLE001
@@ -251,14 +270,14 @@ def _hosted_child(conn: Any, a: Any) -> None:
         conn.close()
 
 
-def run_manager_hosted(W: int, max_fails: int, history: List[Dict[str, Any]], startup_deaths=(), slow=()) -> Dict[str, Any]:
+def run_manager_hosted(W: int, max_fails: int, history: List[Dict[str, Any]], startup_deaths=(), slow=(), pidpool: int = 0) -> Dict[str, Any]:
     """The same run, but with the manager living in a multiprocessing child named like an application supervisor
     (not 'worker-*'): a legal way to host `ProcessManager` / `run_worker` inside a bigger program."""
     import multiprocessing as mp
 
     ctx = mp.get_context("fork")
     parent, child = ctx.Pipe(duplex=False)
-    p = ctx.Process(target=_hosted_child, args=(child, (W, max_fails, history, list(startup_deaths), list(slow))), name="supervisor-1")
+    p = ctx.Process(target=_hosted_child, args=(child, (W, max_fails, history, list(startup_deaths), list(slow), False, pidpool)), name="supervisor-1")
     p.start()
     child.close()
     try:
